@@ -13,7 +13,7 @@ FILES = ["solvor/flow.py", "solvor/types.py"]
 FUNCTIONS = ["solvor.flow.max_flow"]
 BOUNDS = {
     "quick": "every topology on 4 nodes (source 0, sink 3) with <=4 arcs out of the 12 possible (incl. arcs into the source / "
-             "out of the sink, anti-parallel pairs), lexicographic adjacency order, plus a named family of 14 larger/odd "
+             "out of the sink, anti-parallel pairs), lexicographic adjacency order, plus a named family of 16 larger/odd "
              "topologies (6-7 nodes, parallel arcs, self loop, string labels, reversed adjacency order); every capacity an "
              "unbounded non-negative Int (zero included)",
     "thorough": "every topology on 4 nodes with <=6 arcs, the complete digraph on 4 nodes, named family, and VERIF_SEED-sampled "
@@ -41,6 +41,9 @@ NAMED = {
     "no_path": (4, [(1, 0), (3, 2), (1, 2)], 0, 3),
     "src_eq_only_arc": (2, [(0, 1)], 0, 1),
     "grid6": (6, [(0, 1), (0, 2), (1, 2), (1, 3), (2, 4), (3, 4), (4, 3), (3, 5), (4, 5)], 0, 5),
+    # anti-parallel pair used in both directions by successive augmenting paths (s-v-u-t, then s-x-u-v-y-t)
+    "antipar_both6": (6, [(0, 1), (0, 2), (1, 3), (1, 4), (2, 3), (3, 5), (3, 1), (4, 5)], 0, 5),
+    "antipar_both6b": (6, [(0, 2), (0, 1), (1, 3), (3, 1), (1, 4), (2, 3), (3, 5), (4, 5), (4, 1)], 0, 5),
     "sink_first_order": (5, [(0, 3), (0, 1), (1, 2), (3, 2), (2, 4), (1, 4), (3, 1)], 0, 4),
 }
 STRING_LABELS = {"cancel6", "parallel"}
